@@ -10,10 +10,13 @@ import (
 	"compress/gzip"
 	"encoding/json"
 	"fmt"
+	"os"
+	"path/filepath"
 	"strconv"
 	"strings"
 	"sync"
 	"time"
+	"unicode"
 
 	"lunar/engine/config"
 	lunarMessages "lunar/engine/messages"
@@ -41,7 +44,40 @@ var (
 	polOnce     sync.Once
 	polWriter   = &recWriter{}
 	polServices *services.PoliciesServices
+	polYAML     string
 )
+
+// yamlSeq renders a list of strings as a YAML flow sequence of double-quoted scalars (JSON escapes plus
+// \uXXXX / \UXXXXXXXX for everything YAML does not accept raw).
+func yamlSeq(xs []string) string {
+	var b strings.Builder
+	b.WriteByte('[')
+	for i, x := range xs {
+		if i > 0 {
+			b.WriteString(", ")
+		}
+		b.WriteByte('"')
+		for _, c := range x {
+			switch {
+			case c == '"':
+				b.WriteString(`\"`)
+			case c == '\\':
+				b.WriteString(`\\`)
+			case c < 0x20 || (c >= 0x7f && c <= 0xa0) || c == 0x2028 || c == 0x2029 || c == 0xfeff || !unicode.IsPrint(c) && c != ' ':
+				if c > 0xffff {
+					fmt.Fprintf(&b, `\U%08X`, c)
+				} else {
+					fmt.Fprintf(&b, `\u%04X`, c)
+				}
+			default:
+				b.WriteRune(c)
+			}
+		}
+		b.WriteByte('"')
+	}
+	b.WriteByte(']')
+	return b.String()
+}
 
 func polSetup() {
 	polOnce.Do(func() {
@@ -50,6 +86,11 @@ func polSetup() {
 			panic(err)
 		}
 		polServices = s
+		dir, err := os.MkdirTemp("", "verif-c16-pol-")
+		if err != nil {
+			panic(err)
+		}
+		polYAML = filepath.Join(dir, "policies.yaml")
 	})
 }
 
@@ -109,7 +150,10 @@ func execPol(op string, w []string, o *proto.Out) string {
 		return "bad-op"
 	}
 	const host, path = "bank.example.com", "/transfer"
-	var global, endpoint []sharedConfig.Diagnosis
+	// The diagnoses are written as a policies.yaml and read back by the production loader
+	// (config.ReadPoliciesConfig: configuration.DecodeYAML + Validate), so the yaml tags of the shared model
+	// (request_body_paths / response_body_paths, obfuscate.enabled, enabled, …) are on the judged path.
+	var gy, ey strings.Builder
 	for i := 0; i < n; i++ {
 		f, okF := proto.KV(w, fmt.Sprintf("f%d", i))
 		q, okQ := proto.KV(w, fmt.Sprintf("q%d", i))
@@ -121,25 +165,37 @@ func execPol(op string, w []string, o *proto.Out) string {
 		if json.Unmarshal([]byte(proto.Dec(q)), &qp) != nil || json.Unmarshal([]byte(proto.Dec(s)), &sp) != nil {
 			return "bad-op"
 		}
-		d := sharedConfig.Diagnosis{
-			Name:    fmt.Sprintf("har-%d", i),
-			Enabled: f[1] == '1',
-			Export:  "file",
-			Config: sharedConfig.DiagnosisConfig{HARExporter: &sharedConfig.HARExporterConfig{
-				TransactionMaxSize: 1 << 30,
-				Obfuscate: sharedConfig.Obfuscate{
-					Enabled:    f[2] == '1',
-					Exclusions: sharedConfig.ObfuscationExclusions{RequestBodyPaths: qp, ResponseBodyPaths: sp},
-				},
-			}},
-		}
+		y := &gy
+		ind := "    "
 		if f[0] == 'e' {
-			endpoint = append(endpoint, d)
-		} else {
-			global = append(global, d)
+			y = &ey
+			ind = "      "
 		}
+		fmt.Fprintf(y, "%s- name: har-%d\n", ind, i)
+		fmt.Fprintf(y, "%s  enabled: %v\n", ind, f[1] == '1')
+		fmt.Fprintf(y, "%s  export: file\n", ind)
+		fmt.Fprintf(y, "%s  config:\n%s    har_exporter:\n", ind, ind)
+		fmt.Fprintf(y, "%s      transaction_max_size: %d\n", ind, 1<<30)
+		fmt.Fprintf(y, "%s      obfuscate:\n%s        enabled: %v\n%s        exclusions:\n", ind, ind, f[2] == '1', ind)
+		fmt.Fprintf(y, "%s          request_body_paths: %s\n", ind, yamlSeq(qp))
+		fmt.Fprintf(y, "%s          response_body_paths: %s\n", ind, yamlSeq(sp))
+	}
+	var doc strings.Builder
+	if gy.Len() > 0 {
+		doc.WriteString("global:\n  diagnosis:\n" + gy.String())
+	}
+	if ey.Len() > 0 {
+		fmt.Fprintf(&doc, "endpoints:\n  - url: %s%s\n    method: POST\n    diagnosis:\n%s", host, path, ey.String())
 	}
 	polSetup()
+	if err := os.WriteFile(polYAML, []byte(doc.String()), 0o644); err != nil {
+		panic(err)
+	}
+	policies, err := config.ReadPoliciesConfig(polYAML)
+	if err != nil {
+		panic(fmt.Sprintf("policies.yaml rejected: %v", err))
+	}
+	global := policies.Global.Diagnosis
 	o.Count("pol")
 	tr := parseTransfer(w)
 	// at least one leading space, so that a body exported as is never equals the compact obfuscated document
@@ -149,11 +205,7 @@ func execPol(op string, w []string, o *proto.Out) string {
 	respHeaders := map[string]string{"content-type": "application/json"}
 	reqText, reqSent := wire(proto.Dec(rq), tr.padReq, tr.gzReq, reqHeaders)
 	respText, respSent := wire(proto.Dec(rs), tr.padResp, tr.gzResp, respHeaders)
-	var endpoints []sharedConfig.EndpointConfig
-	if len(endpoint) > 0 {
-		endpoints = append(endpoints, sharedConfig.EndpointConfig{URL: host + path, Method: "POST", Diagnosis: endpoint})
-	}
-	tree, err := config.BuildEndpointPolicyTree(endpoints)
+	tree, err := config.BuildEndpointPolicyTree(policies.Endpoints)
 	if err != nil {
 		panic(err)
 	}
